@@ -342,6 +342,14 @@ class Interp:
             cur = self.getattr(self.eval(s.target.value, fr), s.target.attr)
         else:
             raise OutOfSubset('augmented assignment target')
+        if isinstance(cur, SBytes) and cur.mutable and isinstance(s.op, ast.Add):
+            # bytearray.__iadd__: the SAME object grows (every alias sees it); a write unless this call allocated it
+            new = self.st.to_rope(self.binop(ast.Add, cur, self.eval(s.value, fr)))
+            cur.segs = list(new.segs)
+            if id(cur) not in self.st.fresh_ids:
+                self.st.writes.append(('bytearray', 'param', 'in-place +='))
+            self.assign(s.target, cur, fr)
+            return
         if isinstance(cur, (list, dict, bytearray)) or (isinstance(cur, SBytes) and cur.mutable):
             raise OutOfSubset('in-place augmented assignment on a mutable object')
         v = self.binop(type(s.op), cur, self.eval(s.value, fr))
